@@ -160,7 +160,7 @@ fn run_site(ki: usize, site: usize, msg: Vec<u8>, hs: Option<u64>, st: &mut Stat
         if !o.res.is_ok() {
             return Err(Violation::new("result-not-ok", format!("{} / {}: run_on returned {}", name, SITES[site], o.res.short())));
         }
-        let d = decode_all(&o.sim.out, &conv, &s.last_seq, conv.cmds.len(), false).map_err(|e| Violation::new("reply-decode", format!("{} / {}: {}", name, SITES[site], e)))?;
+        let d = decode_all(delivered(&o), &conv, &s.last_seq, conv.cmds.len(), false).map_err(|e| Violation::new("reply-decode", format!("{} / {}: {}", name, SITES[site], e)))?;
         // the reply that must carry the error is the one before the sentinel
         let r = &d.replies[conv.cmds.len() - 2];
         let e = match r.last() {
